@@ -209,7 +209,7 @@ PARTS = {"sim": {"shard": shard, "replay": replay, "budget": {"quick": 96, "thor
 def vacuity(merged, tier):
     m = merged["sim"]
     n = max(1, m["evaluations"])
-    if m["classes"].get("seed_changes_outcome", 0) / n < 0.8:
+    if m["classes"].get("seed_changes_outcome", 0.0) / n < 0.8:
         return "a different seed changes the digest in fewer than 80% of the cases (digest may be vacuous)"
     for cls in ("FCNAgent", "VTracedMarketMakerAgent", "TradingHaltRule", "PriceLimitRule", "OrderMistakeShock", "FundamentalPriceShock"):
         if m["classes"].get(cls, 0) == 0:
